@@ -30,6 +30,7 @@ type SysOpts struct {
 	HostBases    []string
 	MetaLimit    int
 	BoltSync     bool // keep fsync on (C15)
+	ReopenMid    bool // replay: the backend is also closed and reopened before the LAST step of every history (C15)
 	FreshMeta    bool // single-bucket systems: a restart comes back with an empty in-memory metadata store (the default
 	// configuration of the directfs backend), so every object is met without a metadata record
 	Skew       bool // keep the default time-skew limit (requests carrying a far-off x-amz-date are refused)
